@@ -138,7 +138,7 @@ var exprOps = []string{"+", "-", "*", "/", "%"}
 func c06Trees(maxOps int, lits []int64, name string) *core.Scenario {
 	return &core.Scenario{
 		Name: name, Bound: -1,
-		Rule: fmt.Sprintf("all expression trees with <= %d binary operators over {+,-,*,/,%%} and the literal set %v, each rendered 3 ways (minimal parentheses, fully parenthesised, spaced), observed through DD; one program per (shape, operators, leading leaves, rendering) holding all combinations of the last two leaves; non-trivial = expressions with >= 1 operator whose value fits int64; expressions with a zero divisor are assembled alone and must be diagnosed", maxOps, lits),
+		Rule:   fmt.Sprintf("all expression trees with <= %d binary operators over {+,-,*,/,%%} and the literal set %v, each rendered 3 ways (minimal parentheses, fully parenthesised, spaced), observed through DD; one program per (shape, operators, leading leaves, rendering) holding all combinations of the last two leaves; non-trivial = expressions with >= 1 operator whose value fits int64; expressions with a zero divisor are assembled alone and must be diagnosed", maxOps, lits),
 		Bounds: map[string]any{"max_operators": maxOps, "literals": lits, "renderings": 3, "not_judged": "values (or intermediate values) outside int64"},
 		Build: func(c *core.Chooser) *core.Case {
 			n := c.Pick("nops", maxOps+1)
@@ -250,7 +250,7 @@ func c06Trees(maxOps int, lits []int64, name string) *core.Scenario {
 
 // positions: a reduced expression set in every other operand position that admits an expression.
 func c06Positions(lits []int64) *core.Scenario {
-	positions := []string{"EQU_reuse", "DB", "DW", "MOV AX", "MOV EAX", "MOV CL", "[BX+e]", "[EBX+e]", "[e+BX]", "[BX+e-1]", "RESB", "EQU", "EQU_chain", "ORG", "ADD CX", "PUSH"}
+	positions := []string{"EQU_reuse", "DB", "DW", "MOV AX", "MOV EAX", "MOV CL", "[BX+e]", "[EBX+e]", "[e+BX]", "[BX+e-1]", "[BX+SI+e]", "[EBX+ESI+e]", "[EBX+ESI*2+e]", "[BX+e+SI]", "RESB", "EQU", "EQU_chain", "ORG", "ADD CX", "PUSH"}
 	return &core.Scenario{
 		Name: "positions", Bound: -1,
 		Rule:   "all expressions with <= 1 operator (and a 2-operator sample) over the literal set, placed in every operand position that admits an expression (data, immediates, displacements before/after/around a register term, RESB, EQU bodies, ORG); the encoded value must be the reference value modulo the field width; non-trivial = expression with an operator",
@@ -310,6 +310,14 @@ func c06Positions(lits []int64) *core.Scenario {
 				src = sentinelLine(0) + "\tMOV AX,[" + ep + "+BX]\n" + sentinelLine(1)
 			case "[BX+e-1]":
 				src = sentinelLine(0) + "\tMOV AX,[BX+" + ep + "-1]\n" + sentinelLine(1)
+			case "[BX+SI+e]":
+				src = sentinelLine(0) + "\tMOV AX,[BX+SI+" + ep + "]\n" + sentinelLine(1)
+			case "[EBX+ESI+e]":
+				src = sentinelLine(0) + "\tMOV AX,[EBX+ESI+" + ep + "]\n" + sentinelLine(1)
+			case "[EBX+ESI*2+e]":
+				src = sentinelLine(0) + "\tMOV AX,[EBX+ESI*2+" + ep + "]\n" + sentinelLine(1)
+			case "[BX+e+SI]":
+				src = sentinelLine(0) + "\tMOV AX,[BX+" + ep + "+SI]\n" + sentinelLine(1)
 			case "RESB":
 				src = sentinelLine(0) + "\tRESB " + e + "\n" + sentinelLine(1)
 			case "EQU":
@@ -401,7 +409,11 @@ func c06Positions(lits []int64) *core.Scenario {
 								if pos == "[BX+e-1]" {
 									want = want - 1
 								}
-								if (o.Mem.Base != "BX" && o.Mem.Base != "EBX") || o.Mem.Index != "" {
+								wantIdx := map[string]string{"[BX+SI+e]": "SI", "[EBX+ESI+e]": "ESI", "[EBX+ESI*2+e]": "ESI", "[BX+e+SI]": "SI"}[pos]
+								idxOK := o.Mem.Index == wantIdx
+								if wantIdx != "" && o.Mem.Base == wantIdx && (o.Mem.Index == "BX" || o.Mem.Index == "EBX") && pos != "[EBX+ESI*2+e]" {
+									idxOK = true // base and unscaled index are interchangeable
+								} else if (o.Mem.Base != "BX" && o.Mem.Base != "EBX") || !idxOK {
 									fail("register_term_lost", in.String())
 								}
 							}
@@ -422,15 +434,99 @@ func c06Positions(lits []int64) *core.Scenario {
 	}
 }
 
+// c06Pairs: two expressions that differ only in their parentheses (or only in one literal) in ONE program: what the
+// assembler remembers about the first (a folded value keyed by its printed form) must not leak into the second.
+func c06Pairs() *core.Scenario {
+	leafSets := [][]int64{{8, 2, 3}, {100, 5, 2}, {7, 7, 2}}
+	carriers := []string{"DD", "MOV_AX", "DW_EQU"}
+	return &core.Scenario{
+		Name: "same_tokens_pairs", Bound: -1,
+		Rule:   "for every operator pair (op1, op2) and leaf triple: the three groupings a op1 b op2 c / (a op1 b) op2 c / a op1 (b op2 c) - identical once parentheses are dropped - and one variant with a different last literal, every ordered pair of them in one program (through DD, MOV immediates and EQU bodies); each must have its own reference value",
+		Bounds: map[string]any{"leaf_triples": leafSets, "carriers": carriers, "operators": exprOps},
+		Build: func(c *core.Chooser) *core.Case {
+			lv := leafSets[c.Pick("leaves", len(leafSets))]
+			op1, op2 := exprOps[c.Pick("op1", 5)], exprOps[c.Pick("op2", 5)]
+			car := carriers[c.Pick("carrier", len(carriers))]
+			left := &exprNode{op: op2, l: &exprNode{op: op1, l: &exprNode{leaf: 0}, r: &exprNode{leaf: 1}}, r: &exprNode{leaf: 2}}
+			right := &exprNode{op: op1, l: &exprNode{leaf: 0}, r: &exprNode{op: op2, l: &exprNode{leaf: 1}, r: &exprNode{leaf: 2}}}
+			natural := left
+			if prec(op2) > prec(op1) {
+				natural = right
+			}
+			type ex struct {
+				text string
+				tree *exprNode
+				lv   []int64
+			}
+			a, b, cc := litText(lv[0]), litText(lv[1]), litText(lv[2])
+			other := []int64{lv[0], lv[1], lv[2] + 1}
+			vars := []ex{
+				{a + op1 + b + op2 + cc, natural, lv},
+				{"(" + a + op1 + b + ")" + op2 + cc, left, lv},
+				{a + op1 + "(" + b + op2 + cc + ")", right, lv},
+				{a + op1 + b + op2 + litText(other[2]), natural, other},
+			}
+			i, j := c.Pick("first", len(vars)), c.Pick("second", len(vars))
+			if i == j {
+				return nil
+			}
+			e1, e2 := vars[i], vars[j]
+			v1, s1 := e1.tree.eval(e1.lv)
+			v2, s2 := e2.tree.eval(e2.lv)
+			if s1 != "ok" || s2 != "ok" {
+				return nil
+			}
+			var src string
+			switch car {
+			case "DD":
+				src = sentinelLine(0) + "\tDD " + e1.text + "\n" + sentinelLine(1) + "\tDD " + e2.text + "\n" + sentinelLine(2)
+			case "MOV_AX":
+				src = "[BITS 32]\n" + sentinelLine(0) + "\tMOV EAX," + e1.text + "\n" + sentinelLine(1) + "\tMOV EBX," + e2.text + "\n" + sentinelLine(2)
+			case "DW_EQU":
+				src = "P EQU " + e1.text + "\nQ EQU " + e2.text + "\n" + sentinelLine(0) + "\tDD P\n" + sentinelLine(1) + "\tDD Q\n" + sentinelLine(2)
+			}
+			return &core.Case{
+				Key:  car + " | " + e1.text + " ; " + e2.text,
+				Feat: feat("pos", "pair_"+car, "op", op1, "op2", op2, "first", fmt.Sprint(i), "second", fmt.Sprint(j)),
+				Srcs: []string{src},
+				Judge: func(rs []*core.Result) core.Verdict {
+					r := rs[0]
+					v := core.Verdict{}
+					if core.ReportsError(r, nil) {
+						v.Outcome = "diagnosed"
+						v.Fails = []core.Fail{{Facet: "value", Dev: "refused", Detail: errSummary(r)}}
+						return v
+					}
+					v.Outcome, v.Nontrivial = "assembled", true
+					for k, want := range []*big.Int{v1, v2} {
+						reg, ok := between(r.Out, k, k+1)
+						if !ok || len(reg) < 4 {
+							v.Fails = append(v.Fails, core.Fail{Facet: "layout", Dev: "sentinels_lost", Detail: hexs(r.Out)})
+							return v
+						}
+						got := rdle(reg[len(reg)-4:])
+						if (got^want.Int64())&0xffffffff != 0 {
+							which := []string{"first", "second"}[k]
+							v.Fails = append(v.Fails, core.Fail{Facet: "value", Dev: "wrong_value_" + which,
+								Detail: fmt.Sprintf("%s expression of the pair (%s ; %s) encoded %#x, reference value %d", which, e1.text, e2.text, got&0xffffffff, want)})
+						}
+					}
+					return v
+				},
+			}
+		},
+	}
+}
+
 func init() {
 	register(&Property{
 		ID: "C06",
 		Scenarios: func(tier string) []*core.Scenario {
 			lq := []int64{0, 1, -1, 7, 255, 0x10, 0x7fffffff, 3, 0x80000000, 0xfffff000}
 			if tier == "thorough" {
-				return []*core.Scenario{c06Trees(2, lq, "trees_le2"), c06Trees(3, []int64{0, 1, -1, 7, 255}, "trees_le3"), c06Positions(lq)}
+				return []*core.Scenario{c06Trees(2, lq, "trees_le2"), c06Trees(3, []int64{0, 1, -1, 7, 255}, "trees_le3"), c06Positions(lq), c06Pairs()}
 			}
-			return []*core.Scenario{c06Trees(2, lq, "trees_le2"), c06Positions(lq)}
+			return []*core.Scenario{c06Trees(2, lq, "trees_le2"), c06Positions(lq), c06Pairs()}
 		},
 		Assumptions: []string{
 			"reference semantics: arbitrary-precision integers, * / % bind tighter than + -, equal precedence associates left to right, / truncates toward zero, % takes the sign of the dividend; an expression whose value or an intermediate value leaves int64 is not judged",
